@@ -33,6 +33,9 @@
 #ifdef VF_FENV_ROTATE
 #include <fenv.h>
 #endif
+#if defined(VF_X87PC_ROTATE) && (defined(__x86_64__) || defined(__i386__))
+#include <fpu_control.h>
+#endif
 #include <time.h>
 
 /* ------------------------------------------------------------------ PRNG */
@@ -517,6 +520,21 @@ int main(int argc, char **argv)
             vf_count_dyn("cases-run-under-a-directed-rounding-mode", m != 3);
         }
 #endif
+#if defined(VF_X87PC_ROTATE) && (defined(__x86_64__) || defined(__i386__))
+        /* configuration "fenv" of the integer / container / codec checks only: the x87 PRECISION-CONTROL field of the calling thread (64-bit significand by default on
+         * Linux, 53 bits on the BSDs and under MSVC, 24 bits under Direct3D 9 and some JIT runtimes) is thread state like the rounding mode, and routines whose results
+         * are integers, bytes or links must not depend on it either (seeded change C19-O: an integer root through sqrtl((long double)x) and a +-1 fix-up, exact with a
+         * 64-bit significand, off by up to 2^8 with 24 bits). Never applied where the library legitimately computes in long double. */
+        {
+            static unsigned short const vf_pc[3] = {_FPU_EXTENDED, _FPU_DOUBLE, _FPU_SINGLE};
+            unsigned const k = (unsigned)((vf_hash64(vf.seed * 0x9E3779B97F4A7C15ULL + 0x87, c) >> 33) % 3);
+            fpu_control_t cw;
+            _FPU_GETCW(cw);
+            cw = (fpu_control_t)((cw & ~_FPU_EXTENDED) | vf_pc[k]);
+            _FPU_SETCW(cw);
+            vf_count_dyn("cases-run-with-reduced-x87-precision-control", k != 0);
+        }
+#endif
         /* every configuration: the calling thread's errno is execution environment too. It is whatever an earlier, unrelated call left there; a
          * routine that tests it must have cleared it first (seeded change C15-M: `errno == ERANGE` after pow() without `errno = 0` before it
          * turns every plan into "hold position" for callers whose errno is stale). A pure function of (seed, case). */
@@ -528,7 +546,29 @@ int main(int argc, char **argv)
         }
         if (case_timeout) { alarm(case_timeout); }
         if (vf.explain) { fprintf(stderr, "=== %s case %" PRIu64 " seed %" PRIu64 " config %s\n", VF_PROP, c, vf.seed, vf.config); }
+#if defined(__x86_64__) && !defined(VF_OWN_FP_CONTROL)
+        /* the floating-point CONTROL state of the calling thread (MXCSR rounding / flush-to-zero / denormals-are-zero / exception masks, x87 control word) is an
+         * OUTPUT of every library call too: a routine that changes it for speed and forgets to put it back on one path leaves every later computation of the thread
+         * in another arithmetic (seeded change C11-O: flush-to-zero set inside the norms and not restored on the early return for an infinite component). Compared
+         * around the whole case; the harnesses that set it themselves restore it before they return (or define VF_OWN_FP_CONTROL). */
+        {
+            unsigned const mx0 = __builtin_ia32_stmxcsr() & 0xFFC0u;
+            unsigned short cw0, cw1;
+            __asm__ volatile("fnstcw %0" : "=m"(cw0));
+            vf_case(c, &r);
+            __asm__ volatile("fnstcw %0" : "=m"(cw1));
+            if ((__builtin_ia32_stmxcsr() & 0xFFC0u) != mx0 || cw1 != cw0)
+            {
+                vf_viol("env/fp-control-state-left-changed", "MXCSR control bits 0x%04X -> 0x%04X, x87 control word 0x%04X -> 0x%04X across the case: a call returned with the thread's rounding / flush-to-zero / precision / mask settings changed",
+                        mx0, __builtin_ia32_stmxcsr() & 0xFFC0u, cw0, cw1);
+                __builtin_ia32_ldmxcsr((__builtin_ia32_stmxcsr() & ~0xFFC0u) | mx0);
+                __asm__ volatile("fldcw %0" : : "m"(cw0));
+            }
+            vf_count_dyn("fp-control-state-compared-around-the-case", 1);
+        }
+#else
         vf_case(c, &r);
+#endif
         if (case_timeout) { alarm(0); }
         vf.jr->case_no = UINT64_MAX;
         ++vf.jr->cases_done;
